@@ -22,9 +22,15 @@ func VerifC14Response(k int) {
 	explicitStatus := 0
 	flushBeforeFirstWrite := false
 	wroteAny := false
+	// a bodiless response (HEAD, 304) may legitimately declare the length of the entity it does not send
+	declared := []string{"", "1", "4", "9", "1000000"}[verifrt.Choice("declaredContentLength", 5)]
 	h := mw(http.HandlerFunc(func(w http.ResponseWriter, r *http.Request) {
 		w.Header().Set("Content-Type", "text/plain")
 		ref.Header().Set("Content-Type", "text/plain")
+		if declared != "" {
+			w.Header().Set("Content-Length", declared)
+			ref.Header().Set("Content-Length", declared)
+		}
 		for i := 0; i < k; i++ {
 			switch verifrt.Choice("call", 4) {
 			case 0:
@@ -35,6 +41,9 @@ func VerifC14Response(k int) {
 				w.WriteHeader(explicitStatus)
 				ref.WriteHeader(explicitStatus)
 			case 1:
+				if declared != "" {
+					continue // with a declared entity length this harness models the bodiless (HEAD / 304) exchange
+				}
 				n := verifrt.Choice("len", 4)
 				if !overflow && total+n > limit {
 					overflow = true
@@ -70,7 +79,7 @@ func VerifC14Response(k int) {
 		verifrt.Known("C14-flush-before-write", verifrt.And(flushBeforeFirstWrite, st != 200))
 		verifrt.Assert(rec.status == ref.status, "within the limit the status code passes through unchanged (also for bodiless responses)")
 		verifrt.Assert(string(rec.body) == string(ref.body), "within the limit the body passes through unchanged")
-		verifrt.Assert(rec.wire.Get("Content-Type") == "text/plain" && len(rec.wire) == len(ref.wire), "within the limit the headers pass through unchanged")
+		verifrt.Assert(rec.wire.Get("Content-Type") == "text/plain" && rec.wire.Get("Content-Length") == declared && len(rec.wire) == len(ref.wire), "within the limit the headers pass through unchanged")
 		verifrt.Assert(rec.flushes == ref.flushes, "within the limit flushes pass through")
 	}
 }
